@@ -104,7 +104,9 @@ proof fn lemma_visited_bound(visited: Set<int>, occupied: Set<int>, size: int)
 // ================= frequencies/reverse_purge_item_hash_map.rs (real code + overlay) =================
 const DRIFT_LIMIT : usize = 1024 ;
 
+
 const MAX_SAMPLE_SIZE : usize = 1024 ;
+
 
 pub assume_specification<T: Ord> [ <[T]>::select_nth_unstable ] (s: &mut [T], index: usize) -> (r: (&mut [T], &mut T, &mut [T]))
   requires index < old(s)@.len()
@@ -119,6 +121,7 @@ spec fn ssub(a: u64, b: u64) -> u64 { if a >= b { (a - b) as u64 } else { 0u64 }
 #[verifier::reject_recursive_types(T)]
 struct ReversePurgeItemHashMap < T > {
 lg_length : u8 , load_threshold : usize , keys : Vec < Option < T >> , values : Vec < u64 > , states : Vec < u16 > , num_active : usize , }
+
 
 
 pub uninterp spec fn hash_spec<T>(item: T) -> u64;
@@ -259,6 +262,7 @@ probe }
 
 
 
+
     fn adjust_or_put_value ( & mut self , key : T , adjust_amount : u64 ) requires eq_law :: < T > ( ) , old ( self ) . wf ( ) , old ( self ) . num_active + 1 < old ( self ) . states @ . len ( ) , old ( self ) . val ( key ) + adjust_amount <= u64 :: MAX , ensures final ( self ) . wf ( ) , final ( self ) . lg_length == old ( self ) . lg_length , final ( self ) . load_threshold == old ( self ) . load_threshold , forall | k2 : T | final ( self ) . val ( k2 ) == ( if k2 == key {
 ( old ( self ) . val ( key ) + adjust_amount ) as u64 }
 else {
@@ -366,6 +370,7 @@ if self . values @ =~= vs . update ( probe as int , ( vs [ probe as int ] + adju
 
 
 
+
     fn hash_delete ( & mut self , mut delete_probe : usize ) requires old ( self ) . shape ( ) , fok ( old ( self ) . keys @ , old ( self ) . states @ ) , delete_probe < old ( self ) . states @ . len ( ) , old ( self ) . states @ [ delete_probe as int ] > 0 , focc ( old ( self ) . states @ ) . len ( ) < old ( self ) . states @ . len ( ) , exists | e : int | 1 <= e < DRIFT_LIMIT - 1 && old ( self ) . states @ [ # [ trigger ] dpos ( delete_probe as int , e , old ( self ) . states @ . len ( ) as int ) ] == 0 , ensures final ( self ) . shape ( ) , fok ( final ( self ) . keys @ , final ( self ) . states @ ) , final ( self ) . lg_length == old ( self ) . lg_length , final ( self ) . load_threshold == old ( self ) . load_threshold , final ( self ) . num_active == old ( self ) . num_active , focc ( final ( self ) . states @ ) . len ( ) == focc ( old ( self ) . states @ ) . len ( ) - 1 , forall | k2 : T | fholds ( final ( self ) . keys @ , final ( self ) . states @ , k2 ) == ( fholds ( old ( self ) . keys @ , old ( self ) . states @ , k2 ) && Some ( k2 ) != old ( self ) . keys @ [ delete_probe as int ] ) , forall | k2 : T | Some ( k2 ) != old ( self ) . keys @ [ delete_probe as int ] ==> fval ( final ( self ) . keys @ , final ( self ) . values @ , final ( self ) . states @ , k2 ) == fval ( old ( self ) . keys @ , old ( self ) . values @ , old ( self ) . states @ , k2 ) , exists | e : int | # [ trigger ] fdel_frame ( old ( self ) . keys @ , old ( self ) . values @ , old ( self ) . states @ , final ( self ) . keys @ , final ( self ) . values @ , final ( self ) . states @ , delete_probe as int , e ) , {
 let ghost ks0 = self . keys @ ;
 let ghost vs0 = self . values @ ;
@@ -435,6 +440,7 @@ lemma_fdel_final ( ks0 , st0 , self . keys @ , self . states @ , idx0 , e , m , 
 assert ( fdel_frame ( ks0 , vs0 , st0 , self . keys @ , self . values @ , self . states @ , idx0 , e ) ) ;
 }
 }
+
 
 
 
@@ -510,8 +516,10 @@ assert ( fholds ( self . keys @ , self . states @ , k ) ) ;
 
 
 
+
     fn is_active ( & self , probe : usize ) -> ( r : bool ) requires probe < self . states @ . len ( ) ensures r == ( self . states @ [ probe as int ] > 0 ) {
 self . states [ probe ] > 0 }
+
 
 
 fn adjust_all_values_by ( & mut self , adjust_amount : u64 ) ensures final ( self ) . keys @ == old ( self ) . keys @ , final ( self ) . states @ == old ( self ) . states @ , final ( self ) . lg_length == old ( self ) . lg_length , final ( self ) . load_threshold == old ( self ) . load_threshold , final ( self ) . num_active == old ( self ) . num_active , final ( self ) . values @ . len ( ) == old ( self ) . values @ . len ( ) , forall | i : int | 0 <= i < old ( self ) . values @ . len ( ) ==> final ( self ) . values @ [ i ] == ssub ( old ( self ) . values @ [ i ] , adjust_amount ) , {
@@ -526,6 +534,7 @@ vx_i1 += 1 ;
 
 
 
+
     spec fn pos_vals(&self) -> bool { forall|p: int| 0 <= p < self.states@.len() && self.states@[p] > 0 ==> self.values@[p] > 0 }
 
     fn purge ( & mut self , sample_size : usize ) -> ( median : u64 ) requires eq_law :: < T > ( ) , old ( self ) . wf ( ) , runs_short ( old ( self ) . states @ ) , old ( self ) . pos_vals ( ) , old ( self ) . num_active > 0 , sample_size > 0 , ensures final ( self ) . wf ( ) , runs_short ( final ( self ) . states @ ) , final ( self ) . pos_vals ( ) , median > 0 , final ( self ) . lg_length == old ( self ) . lg_length , final ( self ) . load_threshold == old ( self ) . load_threshold , forall | k : T | final ( self ) . val ( k ) == ( if old ( self ) . val ( k ) > median {
@@ -534,7 +543,8 @@ else {
 0u64 }
 ) ,
 /*@C07.purge.values*/ forall | k : T | fholds ( final ( self ) . keys @ , final ( self ) . states @ , k ) == ( old ( self ) . val ( k ) > median ) , final ( self ) . num_active < old ( self ) . num_active ,
-/*@C07.purge.progress*/ {
+/*@C07.purge.progress*/
+/*@C07.purge.median_is_counter*/ exists | k : T | fholds ( old ( self ) . keys @ , old ( self ) . states @ , k ) && # [ trigger ] old ( self ) . val ( k ) >= median , {
 let ghost ks0 = self . keys @ ;
 let ghost vs0 = self . values @ ;
 let ghost st0 = self . states @ ;
@@ -586,6 +596,10 @@ let j = choose | j : int | 0 <= j < s0 . len ( ) && s0 [ j ] == median ;
 assert ( sample_ok ( st0 , vs0 , s0 [ j ] ) ) ;
 let p = choose | p : int | 0 <= p < st0 . len ( ) && st0 [ p ] > 0 && vs0 [ p ] == s0 [ j ] ;
 assert ( median > 0 ) ;
+assert ( freach_at ( ks0 , st0 , p ) ) ;
+let k0 = ks0 [ p ] -> 0 ;
+lemma_fidx ( ks0 , st0 , k0 , p ) ;
+assert ( fholds ( old ( self ) . keys @ , old ( self ) . states @ , k0 ) && old ( self ) . val ( k0 ) >= median ) ;
 }
 self . adjust_all_values_by ( median ) ;
 let ghost vs1 = self . values @ ;
@@ -600,8 +614,9 @@ median }
 
 
 
+
     fn resize ( & mut self , new_size : usize ) requires eq_law :: < T > ( ) , old ( self ) . wf ( ) , old ( self ) . pos_vals ( ) , new_size == 2 * old ( self ) . states @ . len ( ) , old ( self ) . lg_length < 40 , ensures final ( self ) . wf ( ) , final ( self ) . pos_vals ( ) , final ( self ) . states @ . len ( ) == new_size , final ( self ) . lg_length == old ( self ) . lg_length + 1 , final ( self ) . num_active == old ( self ) . num_active , forall | k : T | final ( self ) . val ( k ) == old ( self ) . val ( k ) ,
-/*@C07.resize.values*/ forall | k : T | fholds ( final ( self ) . keys @ , final ( self ) . states @ , k ) == fholds ( old ( self ) . keys @ , old ( self ) . states @ , k ) , {
+/*@C07.resize.values*/ forall | k : T | fholds ( final ( self ) . keys @ , final ( self ) . states @ , k ) == fholds ( old ( self ) . keys @ , old ( self ) . states @ , k ) , final ( self ) . load_threshold == new_size * 3 / 4 , {
 let ghost ks0 = self . keys @ ;
 let ghost vs0 = self . values @ ;
 let ghost st0 = self . states @ ;
@@ -630,7 +645,7 @@ assert ( focc ( st0 . take ( 0 ) ) =~= Set :: < int > :: empty ( ) ) ;
 }
 let mut vx_n1 = 0 ;
 let vx_end1 = old_keys . len ( ) ;
-while vx_n1 < vx_end1 invariant 0 <= vx_n1 <= vx_end1 , vx_end1 == n0 , eq_law :: < T > ( ) , old_values @ == vs0 , old_states @ == st0 , old_keys @ . len ( ) == n0 , n0 == st0 . len ( ) , vs0 . len ( ) == n0 , ks0 . len ( ) == n0 , fok ( ks0 , st0 ) , forall | p : int | 0 <= p < n0 && st0 [ p ] > 0 ==> vs0 [ p ] > 0 , focc ( st0 ) . len ( ) < n0 , forall | j : int | vx_n1 <= j < n0 ==> old_keys @ [ j ] == ks0 [ j ] , self . wf ( ) , self . pos_vals ( ) , self . states @ . len ( ) == new_size , new_size == 2 * n0 , self . lg_length == lg0 + 1 , self . num_active == focc ( st0 . take ( vx_n1 as int ) ) . len ( ) , forall | k : T | fholds ( self . keys @ , self . states @ , k ) == ( exists | j : int | 0 <= j < vx_n1 && st0 [ j ] > 0 && ks0 [ j ] == Some ( k ) ) , forall | k : T | fholds ( self . keys @ , self . states @ , k ) ==> self . val ( k ) == fval ( ks0 , vs0 , st0 , k ) , decreases vx_end1 - vx_n1 {
+while vx_n1 < vx_end1 invariant 0 <= vx_n1 <= vx_end1 , vx_end1 == n0 , self . load_threshold == new_size * 3 / 4 , eq_law :: < T > ( ) , old_values @ == vs0 , old_states @ == st0 , old_keys @ . len ( ) == n0 , n0 == st0 . len ( ) , vs0 . len ( ) == n0 , ks0 . len ( ) == n0 , fok ( ks0 , st0 ) , forall | p : int | 0 <= p < n0 && st0 [ p ] > 0 ==> vs0 [ p ] > 0 , focc ( st0 ) . len ( ) < n0 , forall | j : int | vx_n1 <= j < n0 ==> old_keys @ [ j ] == ks0 [ j ] , self . wf ( ) , self . pos_vals ( ) , self . states @ . len ( ) == new_size , new_size == 2 * n0 , self . lg_length == lg0 + 1 , self . num_active == focc ( st0 . take ( vx_n1 as int ) ) . len ( ) , forall | k : T | fholds ( self . keys @ , self . states @ , k ) == ( exists | j : int | 0 <= j < vx_n1 && st0 [ j ] > 0 && ks0 [ j ] == Some ( k ) ) , forall | k : T | fholds ( self . keys @ , self . states @ , k ) ==> self . val ( k ) == fval ( ks0 , vs0 , st0 , k ) , decreases vx_end1 - vx_n1 {
 let i = vx_n1 ;
 vx_n1 += 1 ;
 proof {
@@ -706,6 +721,34 @@ assert forall | k : T | self . val ( k ) == fval ( ks0 , vs0 , st0 , k ) by {
 }
 
 
+
+    // an empty table of the given power-of-two size (float leaf vx_load_threshold, R13 vx_none_vec as in resize)
+    fn new ( map_size : usize ) -> ( r : Self ) requires exists | lg : u8 | 1 <= lg <= 40 && map_size == pow2 ( lg as nat ) , ensures r . wf ( ) , r . states @ . len ( ) == map_size , r . load_threshold == map_size * 3 / 4 , r . num_active == 0 , forall | p : int | 0 <= p < r . states @ . len ( ) ==> r . states @ [ p ] == 0 , {
+let ghost lg = choose | lg : u8 | 1 <= lg <= 40 && map_size == pow2 ( lg as nat ) ;
+proof {
+lemma_fmask ( 0usize , lg ) ;
+lemma_pow2_strictly_increases ( 0 , lg as nat ) ;
+lemma2_to64 ( ) ;
+}
+assert! ( map_size . is_power_of_two ( ) ) ;
+let lg_length = map_size . trailing_zeros ( ) as u8 ;
+let load_threshold = vx_load_threshold ( map_size ) ;
+proof {
+assert forall | st : Seq < u16 > | ( forall | i : int | 0 <= i < st . len ( ) ==> st [ i ] == 0 ) implies # [ trigger ] focc ( st ) . len ( ) == 0 by {
+assert ( focc ( st ) =~= Set :: < int > :: empty ( ) ) ;
+}
+}
+Self {
+lg_length , load_threshold , keys : vx_none_vec ( map_size ) , values : vec! [ 0 ;
+map_size ] , states : vec! [ 0 ;
+map_size ] , num_active : 0 , }
+}
+
+
+    fn iter ( & self ) -> ( r : ReversePurgeItemIter < '_ , T > ) requires self . wf ( ) , ensures r . inv ( ) , * r . map == * self , r . yielded ( ) =~= Set :: < int > :: empty ( ) , {
+ReversePurgeItemIter :: new ( self ) }
+
+
     fn get ( & self , key : & T ) -> ( r : u64 ) requires eq_law :: < T > ( ) , self . wf ( ) , ensures r == self . val ( * key ) {
 let probe = self . hash_probe ( key ) ;
 if self . states [ probe ] > 0 {
@@ -715,6 +758,7 @@ lemma_fidx ( self . keys @ , self . states @ , * key , probe as int ) ;
 return self . values [ probe ] ;
 }
 0 }
+
 
 }
 
@@ -1233,10 +1277,23 @@ proof fn lemma_probe_cover(n: nat, p0: int, s: int, i: int) -> (j: int)
     choose|j: int| 0 <= j < pow2(n) && i == probe_at(p0, s, j, size)
 }
 
+// R15: `(size as f64 * 0.6180339887498949) as usize` -- float leaf: the truncated product with a factor < 1 is below size
+pub uninterp spec fn vx_golden_stride_spec(n: usize) -> usize;
+#[verifier::external_body] fn vx_golden_stride(n: usize) -> (r: usize) ensures r == vx_golden_stride_spec(n), n > 0 ==> r < n { (n as f64 * 0.6180339887498949) as usize }
+proof fn lemma_odd_stride(g: usize, n: usize, lg: u8)
+  requires 1 <= lg <= 40, n == pow2(lg as nat), g < n
+  ensures (g | 1) % 2 == 1, 0 < (g | 1) < n
+{
+    lemma_pow2_unfold(lg as nat); lemma_pow2_pos((lg - 1) as nat); lemma_fmask(0usize, (lg - 1) as u8);
+    let h = pow2((lg - 1) as nat) as usize;
+    assert(n == 2 * h);
+    assert((g | 1) % 2 == 1 && (g | 1) > 0 && (g | 1) < n) by (bit_vector) requires g < n, n == 2 * h, h < 0x1000_0000_0000_0000usize;
+}
 // ================= ReversePurgeItemIter =================
 #[verifier::reject_recursive_types(T)]
 struct ReversePurgeItemIter < 'a , T > {
 map : & 'a ReversePurgeItemHashMap < T > , index : usize , count : usize , stride : usize , mask : usize , }
+
 
 spec fn it_steps(index: int, stride: int, n: int) -> int {
     if index >= n { 0 } else { 1 + choose|t: int| 0 <= t < n && probe_at(0, stride, t, n) == index }
@@ -1251,6 +1308,29 @@ impl<'a, T: Eq + Hash> ReversePurgeItemIter<'a, T> {
         &&& (self.index < self.n() || self.index as int == 0x1_0000_0000_0000_0000 - self.stride)
         &&& self.count == self.yielded().len()
     }
+
+    fn new ( map : & 'a ReversePurgeItemHashMap < T > ) -> ( r : Self ) requires map . wf ( ) , ensures r . inv ( ) , r . map == map , r . yielded ( ) =~= Set :: < int > :: empty ( ) , {
+proof {
+lemma_fmask ( 0usize , map . lg_length ) ;
+lemma_pow2_strictly_increases ( 0 , map . lg_length as nat ) ;
+lemma2_to64 ( ) ;
+}
+let size = map . keys . len ( ) ;
+let stride = vx_golden_stride ( size ) | 1 ;
+proof {
+lemma_odd_stride ( vx_golden_stride_spec ( size ) , size , map . lg_length ) ;
+}
+let mask = size - 1 ;
+let index = 0usize . wrapping_sub ( stride ) ;
+proof {
+assert ( index as int == 0x1_0000_0000_0000_0000 - stride ) ;
+assert ( it_steps ( index as int , stride as int , size as int ) == 0 ) ;
+assert ( probe_set ( 0 , stride as int , 0nat , size as int ) . intersect ( focc ( map . states @ ) ) =~= Set :: < int > :: empty ( ) ) ;
+}
+Self {
+map , index , count : 0 , stride , mask , }
+}
+
 
     fn next ( & mut self ) -> ( r : Option < ( & 'a T , u64 ) > ) requires old ( self ) . inv ( ) ensures final ( self ) . inv ( ) , final ( self ) . map == old ( self ) . map , final ( self ) . stride == old ( self ) . stride , r is None ==> old ( self ) . yielded ( ) =~= focc ( old ( self ) . map . states @ ) && final ( self ) . index == old ( self ) . index && final ( self ) . count == old ( self ) . count , r matches Some ( kv ) ==> ( {
 let p = final ( self ) . index as int ;
@@ -1316,6 +1396,7 @@ return Some ( ( key , self . map . values [ self . index ] ) ) ;
 }
 }
 }
+
 
 }
 proof fn lemma_it_steps(index: int, sd: int, lg: u8)
